@@ -43,6 +43,7 @@ import (
 	pb "github.com/AliceO2Group/Control/core/protos"
 	"google.golang.org/grpc"
 	"google.golang.org/grpc/credentials/insecure"
+	"google.golang.org/grpc/status"
 
 	"verif/harness/coresim"
 	simmesos "verif/harness/sim/mesos"
@@ -52,23 +53,24 @@ import (
 // ---------------------------------------------------------------- templates
 
 type c04Tpl struct {
-	Name   string
-	Hosts  []string    // root default `hosts` → detectors of the environment
-	Tasks  [][2]string // (task class, host)
-	SlowMs int         // >0: a call hook at before_DEPLOY that takes this long
+	Name    string
+	Hosts   []string    // root default `hosts` → detectors of the environment
+	Tasks   [][2]string // (task class, host)
+	SlowMs  int         // >0: a call hook at before_DEPLOY that takes this long
+	NonCrit string      // host of an additional NON-critical task of class cn ("" = none)
 }
 
 var c04HostDet = map[string]string{"host1": "TST", "host2": "ITS", "host3": "TPC"}
-var c04Classes = map[string]string{"ca": "direct", "cb": "direct", "cc": "fairmq"}
+var c04Classes = map[string]string{"ca": "direct", "cb": "direct", "cc": "fairmq", "cn": "direct"}
 
 // Every template places a task of class ca on host1 (whatever its detectors): the
 // environments share hosts and task classes, some share detectors.
 var c04Templates = []c04Tpl{
-	{Name: "w1", Hosts: []string{"host1"}, Tasks: [][2]string{{"ca", "host1"}, {"cb", "host2"}}},
-	{Name: "w2", Hosts: []string{"host2"}, Tasks: [][2]string{{"ca", "host1"}, {"cc", "host3"}}},
-	{Name: "w3", Hosts: []string{"host3"}, Tasks: [][2]string{{"ca", "host1"}, {"cb", "host2"}}},
+	{Name: "w1", Hosts: []string{"host1"}, Tasks: [][2]string{{"ca", "host1"}, {"cb", "host2"}}, NonCrit: "host3"},
+	{Name: "w2", Hosts: []string{"host2"}, Tasks: [][2]string{{"ca", "host1"}, {"cc", "host3"}}, NonCrit: "host2"},
+	{Name: "w3", Hosts: []string{"host3"}, Tasks: [][2]string{{"ca", "host1"}, {"cb", "host2"}}, NonCrit: "host1"},
 	{Name: "w12", Hosts: []string{"host1", "host2"}, Tasks: [][2]string{{"cb", "host2"}, {"cc", "host3"}}},
-	{Name: "w23", Hosts: []string{"host2", "host3"}, Tasks: [][2]string{{"ca", "host1"}}},
+	{Name: "w23", Hosts: []string{"host2", "host3"}, Tasks: [][2]string{{"ca", "host1"}}, NonCrit: "host3"},
 	{Name: "w1s", Hosts: []string{"host1"}, Tasks: [][2]string{{"ca", "host1"}, {"cc", "host3"}}, SlowMs: 60},
 	{Name: "w2s", Hosts: []string{"host2"}, Tasks: [][2]string{{"ca", "host1"}, {"cb", "host2"}}, SlowMs: 60},
 	{Name: "w3s", Hosts: []string{"host3"}, Tasks: [][2]string{{"ca", "host1"}, {"cc", "host3"}}, SlowMs: 60},
@@ -106,6 +108,9 @@ func c04Files() map[string]string {
 		fmt.Fprintf(&sb, "name: %s\ndefaults:\n  deploy_timeout: \"6s\"\n  hosts: \"[%s]\"\nroles:\n", t.Name, strings.Join(q, ","))
 		for i, tk := range t.Tasks {
 			fmt.Fprintf(&sb, "  - name: \"t%d\"\n    constraints:\n      - attribute: machine_id\n        value: %q\n    task:\n      load: %s\n      critical: true\n", i, tk[1], tk[0])
+		}
+		if t.NonCrit != "" {
+			fmt.Fprintf(&sb, "  - name: \"tn\"\n    constraints:\n      - attribute: machine_id\n        value: %q\n    task:\n      load: cn\n      critical: false\n", t.NonCrit)
 		}
 		if t.SlowMs > 0 {
 			fmt.Fprintf(&sb, "  - name: \"slow\"\n    vars:\n      verif_sleep_ms: \"%d\"\n      verif_tag: \"slow\"\n    call:\n      func: verif.Slow()\n      trigger: before_DEPLOY\n      timeout: 10s\n      critical: false\n", t.SlowMs)
@@ -147,24 +152,28 @@ type c04Params struct {
 	Clients int    `json:"clients"`
 	Steps   int    `json:"requests_per_client"`
 	Barrier []int  `json:"barrier_steps"`
+	// faults and timing, all decided by the seed
+	Reconnect   int  `json:"reconnect_before_step"` // -1: none; else the event stream is dropped (all clients idle) before this barrier step
+	SlowRunning bool `json:"slow_task_running"`     // every second environment's tasks report TASK_RUNNING 250 ms after launch instead of 30 ms
 }
 
 type c04Req struct {
-	Client  int      `json:"client"`
-	Step    int      `json:"step"`
-	Kind    string   `json:"kind"` // create control destroy cleanup-all cleanup-ids
-	Tpl     string   `json:"template,omitempty"`
-	Env     string   `json:"env,omitempty"`
-	Op      string   `json:"op,omitempty"`
-	Ids     []string `json:"ids,omitempty"`
-	Foreign []string `json:"ids_owned_by_live_envs,omitempty"`
-	Start   int64    `json:"start_seq"`
-	End     int64    `json:"end_seq"`
-	Err     string   `json:"err,omitempty"`
-	State   string   `json:"state,omitempty"`
-	Tasks   []string `json:"tasks,omitempty"`
-	Dets    []string `json:"detectors,omitempty"`
-	Killed  []string `json:"killed,omitempty"`
+	Client    int      `json:"client"`
+	Step      int      `json:"step"`
+	Kind      string   `json:"kind"` // create control destroy cleanup-all cleanup-ids
+	Tpl       string   `json:"template,omitempty"`
+	Env       string   `json:"env,omitempty"`
+	Op        string   `json:"op,omitempty"`
+	Ids       []string `json:"ids,omitempty"`
+	Foreign   []string `json:"ids_owned_by_live_envs,omitempty"`
+	Start     int64    `json:"start_seq"`
+	End       int64    `json:"end_seq"`
+	Err       string   `json:"err,omitempty"`
+	State     string   `json:"state,omitempty"`
+	Tasks     []string `json:"tasks,omitempty"`
+	Dets      []string `json:"detectors,omitempty"`
+	Killed    []string `json:"killed,omitempty"`
+	FailedEnv string   `json:"env_of_failed_creation,omitempty"`
 }
 
 type c04Env struct {
@@ -179,6 +188,7 @@ type c04Env struct {
 	state        string
 	dead         bool // destroy acknowledged / environment reported unknown
 	destroyErr   bool
+	degraded     int64 // != 0: clock value at which a terminal status was injected for its non-critical task
 }
 
 // owned reports whether the environment's ownership interval covers [a,b].
@@ -278,6 +288,11 @@ func c04Run(c *vlib.Ctx, idx int) {
 		p.Delays = v == "1"
 	}
 	p.Barrier = []int{0, 3 + r.Intn(3), 7 + r.Intn(3)}
+	p.Reconnect = -1
+	if idx%3 == 2 {
+		p.Reconnect = p.Barrier[1+r.Intn(2)]
+	}
+	p.SlowRunning = (idx/4)%2 == 0
 	if p.Delays {
 		p.Points = "envman.create.afterDetectorRead=sleep(50);taskman.killTasks.afterFilter=sleep(20)"
 	}
@@ -302,8 +317,26 @@ func c04Run(c *vlib.Ctx, idx int) {
 		finishSim(c, s, id, h.witness("core crash", nil, ""))
 		s.Close()
 	}()
+	// callbacks run under the master's lock: own little state, never h.mu
+	var lmu sync.Mutex
+	slowEnv := map[string]bool{}
 	s.Master.OnLaunch = func(t *simmesos.LaunchedTask) simmesos.LaunchPlan {
-		return simmesos.LaunchPlan{Kind: "running", Delay: 30 * time.Millisecond}
+		d := 30 * time.Millisecond
+		if p.SlowRunning {
+			lmu.Lock()
+			slow, seen := slowEnv[t.EnvID]
+			if !seen {
+				slow = len(slowEnv)%2 == 0
+				slowEnv[t.EnvID] = slow
+			}
+			lmu.Unlock()
+			if slow {
+				// the environment's tasks stay launched-but-not-yet-running (owned, INACTIVE) for a while:
+				// other clients' kills and cleanups run meanwhile
+				d = 250 * time.Millisecond
+			}
+		}
+		return simmesos.LaunchPlan{Kind: "running", Delay: d}
 	}
 	c.Count("histories", 1)
 	if p.Reuse {
@@ -311,6 +344,9 @@ func c04Run(c *vlib.Ctx, idx int) {
 	}
 	if p.Delays {
 		c.Count("histories_delay_points_on", 1)
+	}
+	if p.SlowRunning {
+		c.Count("histories_slow_task_running", 1)
 	}
 
 	var wg sync.WaitGroup
@@ -426,7 +462,7 @@ func (h *c04Hist) pickEnv(r *rand.Rand, forDestroy bool) *c04Env {
 		if e.busy || e.dead {
 			continue
 		}
-		if !forDestroy && (e.DestroyStart != 0 || e.state == "ERROR") {
+		if !forDestroy && (e.DestroyStart != 0 || e.state == "ERROR" || e.degraded != 0) {
 			continue
 		}
 		cand = append(cand, e)
@@ -472,6 +508,13 @@ func (h *c04Hist) client(cl int, r *rand.Rand) {
 	for step := 0; step < h.p.Steps; step++ {
 		if isBarrier[step] {
 			h.bar.wait()
+			if step == h.p.Reconnect {
+				// every client is idle (its last request and snapshot are done): connection loss now
+				if cl == 0 {
+					h.reconnect()
+				}
+				h.bar.wait()
+			}
 		}
 		h.mu.Lock()
 		if h.aborted {
@@ -488,6 +531,32 @@ func (h *c04Hist) client(cl int, r *rand.Rand) {
 				w = []int{50, 5, 35, 4, 6} // simultaneous requests: mostly create vs create vs destroy
 			}
 			kind = pickW(r, w)
+			if r.Intn(100) < 7 {
+				kind = 5 // a non-critical task of a live environment terminates
+			}
+		}
+		var injectTask string
+		if kind == 5 {
+			// an idle live environment whose template has a non-critical task that is still alive
+			mt := h.s.Master.Tasks()
+			var cand []*c04Env
+			for _, id := range h.order {
+				e := h.envs[id]
+				if e.busy || e.dead || e.DestroyStart != 0 || e.degraded != 0 || c04TplByName(e.Tpl).NonCrit == "" {
+					continue
+				}
+				cand = append(cand, e)
+			}
+			kind = 1
+			if len(cand) > 0 {
+				e := cand[r.Intn(len(cand))]
+				for _, t := range mt {
+					if e.has(t.ID) && strings.HasSuffix(t.RolePath, ".tn") && !t.Terminal {
+						env, injectTask, kind = e, t.ID, 5
+						e.busy = true
+					}
+				}
+			}
 		}
 		if kind == 1 {
 			if env = h.pickEnv(r, false); env == nil {
@@ -566,6 +635,15 @@ func (h *c04Hist) client(cl int, r *rand.Rand) {
 			if env.destroyErr {
 				req.Op = "force"
 			}
+			if env.degraded != 0 && !strings.Contains(req.Op, "force") {
+				// a terminated task never answers the RESET of a plain destroy (90 s command timeout)
+				req.Op = "force"
+			}
+		case 5:
+			req.Kind = "inject"
+			req.Env = env.ID
+			req.Ids = []string{injectTask}
+			req.Op = []string{"TASK_FINISHED", "TASK_FAILED"}[r.Intn(2)]
 		case 3:
 			req.Kind = "cleanup-all"
 		case 4:
@@ -637,6 +715,12 @@ func (h *c04Hist) client(cl int, r *rand.Rand) {
 				h.envs[e.ID] = e
 				h.order = append(h.order, e.ID)
 				req.Env, req.State, req.Tasks, req.Dets = e.ID, e.state, e.Tasks, e.Dets
+			} else if st, ok := status.FromError(err); ok {
+				for _, d := range st.Details() {
+					if ei, ok := d.(*pb.EnvironmentInfo); ok {
+						req.FailedEnv = ei.GetId()
+					}
+				}
 			}
 			h.mu.Unlock()
 		case "control":
@@ -670,6 +754,16 @@ func (h *c04Hist) client(cl int, r *rand.Rand) {
 				env.destroyErr = true
 			}
 			h.mu.Unlock()
+		case "inject":
+			// the master reports the task terminal; the status update reaches the core asynchronously
+			h.s.Master.TaskStatus(req.Ids[0], req.Op, "terminated (scripted)")
+			waitQuiet(h.s, 100*time.Millisecond, 3*time.Second)
+			end := vlib.Seq()
+			h.mu.Lock()
+			req.End = end
+			env.degraded = req.Start
+			h.mu.Unlock()
+			h.c.Count("owned_noncritical_tasks_terminated", 1)
 		case "cleanup-all", "cleanup-ids":
 			var rep *pb.CleanupTasksReply
 			rep, err = cli.CleanupTasks(ctx, &pb.CleanupTasksRequest{TaskIds: req.Ids})
@@ -715,6 +809,46 @@ func (h *c04Hist) client(cl int, r *rand.Rand) {
 			return
 		}
 	}
+}
+
+// reconnect drops the scheduler's event stream while no request is in flight and waits until the core has
+// subscribed again and the answers to its reconciliation have been delivered.
+func (h *c04Hist) reconnect() {
+	h.mu.Lock()
+	if h.aborted {
+		h.mu.Unlock()
+		return
+	}
+	req := &c04Req{Client: 0, Step: h.p.Reconnect, Kind: "reconnect", Start: vlib.Seq()}
+	h.reqs = append(h.reqs, req)
+	h.mu.Unlock()
+	life0 := h.s.Master.Life()
+	h.s.Master.DropStream()
+	deadline := time.Now().Add(90 * time.Second)
+	for time.Now().Before(deadline) && h.s.CoreAlive() && (h.s.Master.Life() == life0 || !h.s.Master.Subscribed()) {
+		time.Sleep(10 * time.Millisecond)
+	}
+	if h.s.Master.Life() == life0 || !h.s.Master.Subscribed() {
+		h.mu.Lock()
+		h.aborted = true
+		h.mu.Unlock()
+		if h.s.CoreAlive() {
+			h.c.Inconclusive(fmt.Sprintf("history %d: the core did not resubscribe within 90 s after the stream was dropped", h.p.Index))
+		}
+		return
+	}
+	waitQuiet(h.s, 200*time.Millisecond, 5*time.Second) // RECONCILE and its answers
+	n := 0
+	for _, rec := range h.s.Master.Log() {
+		if rec.Seq > req.Start && rec.Kind == "event" && rec.Type == "UPDATE" && rec.F["reason"] == "REASON_RECONCILIATION" && rec.F["delivered"] == true {
+			n++
+		}
+	}
+	h.mu.Lock()
+	req.End = vlib.Seq()
+	h.mu.Unlock()
+	h.c.Count("reconnections", 1)
+	h.c.Count("reconciliation_updates_delivered", int64(n))
 }
 
 // stuck ends the history after a request that did not return: the core's goroutines are dumped (which ends
@@ -964,6 +1098,61 @@ func (h *c04Hist) evaluate() {
 		}
 	}
 
+	// ---- (1c) tasks of an environment whose creation is still in progress: the core itself lists the task under
+	// the environment (so it was appended to the task list before), the task was launched for that environment
+	// and nobody asked to kill it, yet it is missing from GetTasks - in two snapshots that do not overlap (GetTasks
+	// is called before GetEnvironments: one snapshot alone can straddle the append)
+	firstKill := map[string]int64{}
+	for _, rec := range mlog {
+		if rec.Kind == "call" && rec.Type == "KILL" && rec.TaskID != "" {
+			if _, seen := firstKill[rec.TaskID]; !seen {
+				firstKill[rec.TaskID] = rec.Seq
+			}
+		}
+	}
+	type lostKey struct{ env, task string }
+	lost := map[lostKey][]*c04Snap{}
+	for _, sn := range snaps {
+		for _, se := range sn.Envs {
+			if e := envs[se.ID]; e != nil && e.CreateEnd < sn.S1 {
+				continue // creation acknowledged: judged by the rules for live environments
+			}
+			for _, t := range se.Tasks {
+				mt, found := mtasks[t]
+				if !found || mt.EnvID != se.ID {
+					continue
+				}
+				c.Count("snapshot_tasks_of_creations_in_progress_judged", 1)
+				if _, inRoster := sn.Roster[t]; inRoster {
+					continue
+				}
+				if k, killed := firstKill[t]; killed && k < sn.S1 {
+					continue
+				}
+				lost[lostKey{se.ID, t}] = append(lost[lostKey{se.ID, t}], sn)
+			}
+		}
+	}
+	for k, sns := range lost {
+		for i := range sns {
+			for j := range sns {
+				if sns[i].S1 < sns[j].S0 {
+					outcome := "still in progress at the end of the history"
+					for _, r := range reqs {
+						if r.Kind == "create" && (r.FailedEnv == k.env || r.Env == k.env) {
+							outcome = "ended with: " + r.Err
+							if r.Err == "" {
+								outcome = "succeeded"
+							}
+						}
+					}
+					violate("CLEANUP-TOUCHED-OWNED", "roster-entry-lost-during-creation", fmt.Sprintf("task %s, launched for environment %s and listed under it by GetEnvironments while its creation was in progress, is missing from GetTasks in two successive snapshots although no KILL was requested for it: a kill or cleanup issued for something else removed it from the core's task list (the creation %s)", k.task, k.env, outcome), k.env,
+						map[string]interface{}{"task": k.task, "env": k.env, "snapshot_1": sns[i], "snapshot_2": sns[j]}, k.task)
+				}
+			}
+		}
+	}
+
 	// ---- (1)+(3) at every snapshot
 	for _, sn := range snaps {
 		var live []c04SnapEnv
@@ -1107,10 +1296,13 @@ func (h *c04Hist) evaluate() {
 				c.Count("holder_checks_skipped", 1)
 				continue
 			}
-			touched := false
+			touched := hd.degraded != 0 && hd.degraded < after.S1 // one of its tasks was made to terminate: its state may follow
 			for _, q := range reqs {
 				if q.Env == hd.ID && q != r && q.Kind != "create" && overlap(q.Start, q.End, before.S0, after.S1) {
 					touched = true
+				}
+				if q.Kind == "reconnect" && overlap(q.Start, q.End, before.S0, after.S1) {
+					touched = true // what a reconnection does to an environment is another property's business
 				}
 			}
 			if touched {
